@@ -23,15 +23,34 @@ import (
 	"github.com/moorara/algo/set"
 	"github.com/moorara/algo/symboltable"
 
+	"verifharness/c10"
 	"verifharness/gx"
 	"verifharness/hx"
 )
 
 const Rule = "cases = (grammar, optional precedence levels, op list) drawn from VERIF_SEED: random *reduced* grammars " +
-	"(gx.Random filtered by gx.Reduced; ε-productions, unit and left-recursive alternatives, common prefixes), a hand-written " +
-	"family on the LR(0)/SLR/LALR/LR(1) boundaries, operator grammars E→E op E|id with up to 4 operators and all kinds of " +
+	"(gx.Random filtered by gx.Reduced; ε-productions, unit and left-recursive alternatives, common prefixes; two out of five with " +
+	"their symbols renamed into the name schemes of harness/c10: concatenations, written-terminal look-alikes, the primes augment " +
+	"appends, empty/blank/$/ε names, spaces, terminal = non-terminal names), a hand-written " +
+	"family on the LR(0)/SLR/LALR/LR(1) boundaries, operator grammars E→E op E|id with up to 4 (sweep: 8) operators and all kinds of " +
 	"level/associativity assignments, and direct resolveConflict/Compare cases; ops = build/dump/check for the three " +
 	"constructions, parse+ast of ALL token strings up to a length bound (members and non-members) or of random expressions. " +
+	"API-use family (comp=lruse): ONE *grammar.CFG object handed to all constructors (in every order, one of them twice), production " +
+	"bodies that share backing arrays (arena: one array for all bodies; prefix: a body that is a prefix of another is its sub-slice), " +
+	"the grammar edited in place between constructions while the old tables stay in use, one lr.Parser object per table reused for " +
+	"every parse, the end of input as a wrapped io.EOF or a junk token with io.EOF, a lexer that fails at token k (parsefail), and the " +
+	"`grammar` op (the object handed in must still read as the caller built it). " +
+	"Size-threshold sweep (comp=lrsize, and size= cases of resolve/expr): structured SLR(1) families with ONE dimension at " +
+	"1,2,63,64,65 (Model compared) and 255,256,257 (+258,300; 1025 where the library takes seconds): kernel items of one state / " +
+	"alternatives with a common first symbol (keyword table), terminals / alternatives / states (fan), non-terminals / closure size " +
+	"(unit chain), body length / states / stack depth (one long body), lookahead-set size (la), nullable symbols in a body (eps), " +
+	"input length / stack depth / nesting at 1023,1024,1025,2047..2049,4097,65537,70000, precedence levels and handles per level up " +
+	"to 1025, operators of an expression grammar up to 8. The library is cubic and worse in the size of the largest item set " +
+	"(257 kernel items: 6 s for LALR; 9 operators: 13 s), so quick takes 63/64/65 everywhere, the kernel-item dimension at 257+ on " +
+	"every run and one more dimension at 257 (rotating with the seed); 65536 states are out of the library's reach. Cases at 255+ " +
+	"whose executable Model would take longer than the library are ORACLE-ONLY (hx.Case.NoModel, counted in oracle_only_cases): " +
+	"judged by Earley membership, derivation replay, yield, SLR=>LALR=>LR(1), agreement of the constructions and `expect=table` " +
+	"(the family is SLR(1) by construction: a conflict verdict is inadmissible); thorough compares kw:257, fan:256, la:257 with the Model too. " +
 	"non-trivial = a construction produced a conflict-free table on which at least one string was accepted and one rejected, " +
 	"or the constructions differed (boundary), or precedence resolved at least one conflict cell and a tree was compared with " +
 	"the precedence-climbing reference, or a resolve/compare op reached a decision between two listed handles; " +
@@ -63,56 +82,267 @@ func seedShuffles(seed int64) {
 
 // ---------------------------------------------------------------- names
 //
-// The grammar protocol decides "non-terminal iff listed in nonterms" by name, so a terminal that has the same name as
-// a non-terminal (legal for the library: Terminal("S") and NonTerminal("S") are different symbols) is spelled 'S
-// in case files; the quote is stripped when the library symbol is made, on both sides (Go here, Lean in the driver).
+// Symbols are written as words as in harness/c10: word = [marker] + c10.EncName(name).  The grammar protocol decides
+// "non-terminal iff listed in nonterms" by word, so a terminal that has the same name as a non-terminal (legal for the
+// library: Terminal("S") and NonTerminal("S") are different symbols) is spelled 'S in case files; EncName writes the
+// empty name as %, and as %XX every byte <= 0x20, 0x7F, '%', the arrow, a leading ' or ^ and the names "$" and "ε"
+// altogether.  Words are decoded when the library symbol is made and names are encoded when something is printed, on
+// both sides (Go here, Lean in Driver/C11.lean), so the code under test and the Model run on the real names.
 
-func stripQ(s string) string { return strings.TrimPrefix(s, "'") }
+// stripQ is the name of the terminal a word stands for.
+func stripQ(w string) string { return c10.Bare(w) }
+
+// ntName is the name of the non-terminal a word stands for.
+func ntName(w string) string { return c10.DecName(w) }
+
+func enc(name string) string { return c10.EncName(name) }
 
 // gxName is the case-file spelling of a library symbol.
 func gxName(g gx.G, s grammar.Symbol) string {
-	if s.IsTerminal() && g.IsNonTerm(s.Name()) {
-		return "'" + s.Name()
+	w := enc(s.Name())
+	if s.IsTerminal() && g.IsNonTerm(w) {
+		return "'" + w
 	}
-	return s.Name()
+	return w
 }
 
-// toCFG builds the library grammar (gx.G.ToCFG with the quote convention).
-func toCFG(g gx.G) *grammar.CFG {
+// symOf is the library symbol a body word stands for.
+func symOf(g gx.G, w string) grammar.Symbol {
+	if g.IsNonTerm(w) {
+		return grammar.NonTerminal(ntName(w))
+	}
+	return grammar.Terminal(stripQ(w))
+}
+
+// The layouts in which the production bodies handed to the library can be allocated.  All of them are ordinary Go:
+//
+//	fresh   every body built by append into a slice of its own (spare capacity as append leaves it)
+//	exact   every body a slice of its own with cap == len (a slice literal)
+//	arena   all bodies cut out of ONE backing array, one behind the other, each with the capacity up to the end of
+//	        the array (body := arena[i:j]): an append to a body writes into the body that follows it
+//	prefix  a body that is a prefix of a longer body of the grammar is that body's sub-slice (long[:k], capacity up to
+//	        the end of long); the others as in exact
+//
+// The library may read the bodies it is given, never write to them nor append to (a sub-slice of) them in place.
+var layouts = []string{"fresh", "exact", "arena", "prefix"}
+
+func makeBodies(g gx.G, layout string) []grammar.String[grammar.Symbol] {
+	bodies := make([]grammar.String[grammar.Symbol], len(g.Prods))
+	switch layout {
+	case "arena":
+		total := 0
+		for _, p := range g.Prods {
+			total += len(p.Body)
+		}
+		arena := make(grammar.String[grammar.Symbol], 0, total)
+		for i, p := range g.Prods {
+			from := len(arena)
+			for _, x := range p.Body {
+				arena = append(arena, symOf(g, x))
+			}
+			bodies[i] = arena[from:len(arena)] // capacity: up to the end of the arena
+		}
+	case "prefix":
+		isPrefix := func(a, b []string) bool {
+			if len(a) > len(b) {
+				return false
+			}
+			for i := range a {
+				if a[i] != b[i] {
+					return false
+				}
+			}
+			return true
+		}
+		host := make([]int, len(g.Prods))
+		for i, p := range g.Prods {
+			// the longest body of the grammar that p.Body is a proper prefix of (the first of them); it is a prefix of
+			// no other body itself
+			host[i] = -1
+			for j, q := range g.Prods {
+				if len(q.Body) > len(p.Body) && isPrefix(p.Body, q.Body) && (host[i] < 0 || len(q.Body) > len(g.Prods[host[i]].Body)) {
+					host[i] = j
+				}
+			}
+			if host[i] < 0 {
+				b := make(grammar.String[grammar.Symbol], len(p.Body))
+				for k, x := range p.Body {
+					b[k] = symOf(g, x)
+				}
+				bodies[i] = b
+			}
+		}
+		for i, p := range g.Prods {
+			if host[i] >= 0 {
+				bodies[i] = bodies[host[i]][:len(p.Body)]
+			}
+		}
+	case "exact":
+		for i, p := range g.Prods {
+			b := make(grammar.String[grammar.Symbol], len(p.Body))
+			for k, x := range p.Body {
+				b[k] = symOf(g, x)
+			}
+			bodies[i] = b
+		}
+	default:
+		for i, p := range g.Prods {
+			body := grammar.String[grammar.Symbol]{}
+			for _, x := range p.Body {
+				body = append(body, symOf(g, x))
+			}
+			bodies[i] = body
+		}
+	}
+	return bodies
+}
+
+// toCFGLayout builds the library grammar with the production bodies allocated as the layout says.
+func toCFGLayout(g gx.G, layout string) *grammar.CFG {
 	ts := make([]grammar.Terminal, len(g.Terms))
 	for i, t := range g.Terms {
 		ts[i] = grammar.Terminal(stripQ(t))
 	}
 	ns := make([]grammar.NonTerminal, len(g.NonTerms))
 	for i, n := range g.NonTerms {
-		ns[i] = grammar.NonTerminal(n)
+		ns[i] = grammar.NonTerminal(ntName(n))
 	}
+	bodies := makeBodies(g, layout)
 	ps := make([]*grammar.Production, len(g.Prods))
 	for i, p := range g.Prods {
-		body := grammar.String[grammar.Symbol]{}
-		for _, x := range p.Body {
-			if g.IsNonTerm(x) {
-				body = append(body, grammar.NonTerminal(x))
-			} else {
-				body = append(body, grammar.Terminal(stripQ(x)))
-			}
-		}
-		ps[i] = &grammar.Production{Head: grammar.NonTerminal(p.Head), Body: body}
+		ps[i] = &grammar.Production{Head: grammar.NonTerminal(ntName(p.Head)), Body: bodies[i]}
 	}
-	return grammar.NewCFG(ts, ns, ps, grammar.NonTerminal(g.Start))
+	return grammar.NewCFG(ts, ns, ps, grammar.NonTerminal(ntName(g.Start)))
+}
+
+// toCFG builds the library grammar (gx.G.ToCFG with the word convention).
+func toCFG(g gx.G) *grammar.CFG { return toCFGLayout(g, "fresh") }
+
+// canonG respells a grammar given in the words of a case file in canonical words (what showLive and gxName write): old
+// case files write names such as ^ as they are.
+func canonG(g gx.G) gx.G {
+	isNT := map[string]bool{}
+	out := gx.G{}
+	for _, n := range g.NonTerms {
+		w := enc(ntName(n))
+		isNT[w] = true
+		out.NonTerms = append(out.NonTerms, w)
+	}
+	word := func(w string) string {
+		if g.IsNonTerm(w) {
+			return enc(ntName(w))
+		}
+		cw := enc(stripQ(w))
+		if isNT[cw] {
+			return "'" + cw
+		}
+		return cw
+	}
+	for _, t := range g.Terms {
+		out.Terms = append(out.Terms, word(t))
+	}
+	out.Start = enc(ntName(g.Start))
+	for _, p := range g.Prods {
+		q := gx.P{Head: enc(ntName(p.Head))}
+		for _, x := range p.Body {
+			q.Body = append(q.Body, word(x))
+		}
+		out.Prods = append(out.Prods, q)
+	}
+	return out
+}
+
+// canonTokens respells the tokens of an input (cg: the grammar in canonical words).
+func canonTokens(cg gx.G, w []string) []string {
+	isNT := map[string]bool{}
+	for _, n := range cg.NonTerms {
+		isNT[n] = true
+	}
+	out := make([]string, len(w))
+	for i, t := range w {
+		out[i] = enc(stripQ(t))
+		if isNT[out[i]] {
+			out[i] = "'" + out[i]
+		}
+	}
+	return out
+}
+
+// showLive renders a library grammar in the format of gx.G.Show (words, everything sorted).
+func showLive(G *grammar.CFG) string {
+	isNT := map[string]bool{}
+	var ts, ns, ps []string
+	for n := range G.NonTerminals.All() {
+		isNT[enc(string(n))] = true
+		ns = append(ns, enc(string(n)))
+	}
+	word := func(x grammar.Symbol) string {
+		w := enc(x.Name())
+		if x.IsTerminal() && isNT[w] {
+			return "'" + w
+		}
+		return w
+	}
+	for t := range G.Terminals.All() {
+		ts = append(ts, word(t))
+	}
+	for p := range G.Productions.All() {
+		body := "ε"
+		if len(p.Body) > 0 {
+			ws := make([]string, len(p.Body))
+			for i, x := range p.Body {
+				ws[i] = word(x)
+			}
+			body = strings.Join(ws, " ")
+		}
+		ps = append(ps, enc(string(p.Head))+"→"+body)
+	}
+	sort.Strings(ts)
+	sort.Strings(ns)
+	sort.Strings(ps)
+	return fmt.Sprintf("start=%s T={%s} N={%s} P={%s}", enc(string(G.Start)), strings.Join(ts, ","), strings.Join(ns, ","), strings.Join(ps, "; "))
 }
 
 // ---------------------------------------------------------------- lexer
 
+// sliceLexer hands out the tokens of a case.  How it signals the end of input is a parameter: lexer.Lexer only says
+// "it may also return an error", and Parser.nextToken tests errors.Is(err, io.EOF).
+//
+//	plain  (zero token, io.EOF)
+//	wrap   (zero token, an error that wraps io.EOF)
+//	junk   (a token with a terminal and a lexeme of the grammar, io.EOF): what came with the error does not count
+//
+// failAt >= 0: the call number failAt returns an error that is not io.EOF (an I/O failure of the source).
 type sliceLexer struct {
-	toks []string
-	i    int
+	toks   []string
+	i      int
+	mode   string
+	failAt int
+	calls  int
 }
 
+var errLexer = errors.New("lexer: the source failed")
+
 func (l *sliceLexer) NextToken() (lexer.Token, error) {
+	call := l.calls
+	l.calls++
+	if l.failAt >= 0 && call == l.failAt {
+		return lexer.Token{}, errLexer
+	}
 	// Offset = token index + 1 (Parser.nextToken keeps the position of the token returned together with io.EOF)
 	if l.i >= len(l.toks) {
-		return lexer.Token{Pos: lexer.Position{Offset: len(l.toks) + 1}}, io.EOF
+		pos := lexer.Position{Offset: len(l.toks) + 1}
+		switch l.mode {
+		case "wrap":
+			return lexer.Token{Pos: pos}, fmt.Errorf("lexer: no more input: %w", io.EOF)
+		case "junk":
+			t := lexer.Token{Terminal: "junk", Lexeme: "junk", Pos: pos}
+			if len(l.toks) > 0 {
+				t.Terminal, t.Lexeme = grammar.Terminal(stripQ(l.toks[0])), l.toks[0]
+			}
+			return t, io.EOF
+		}
+		return lexer.Token{Pos: pos}, io.EOF
 	}
 	t := l.toks[l.i]
 	l.i++
@@ -125,15 +355,15 @@ func tname(t grammar.Terminal) string {
 	if t == grammar.Endmarker {
 		return "$"
 	}
-	return string(t)
+	return enc(string(t))
 }
 
 func showProd(p *grammar.Production) string {
 	ss := make([]string, len(p.Body))
 	for i, s := range p.Body {
-		ss[i] = s.Name()
+		ss[i] = enc(s.Name())
 	}
-	return string(p.Head) + "→" + strings.Join(ss, ".")
+	return enc(string(p.Head)) + "→" + strings.Join(ss, ".")
 }
 
 func showAction(a *lr.Action) string {
@@ -187,7 +417,7 @@ func showTable(T *lr.ParsingTable) string {
 		}
 		for _, A := range T.NonTerminals {
 			if t, err := T.GOTO(s, A); err == nil {
-				gts = append(gts, string(A)+"=>"+strconv.Itoa(int(t)))
+				gts = append(gts, enc(string(A))+"=>"+strconv.Itoa(int(t)))
 			}
 		}
 		sort.Strings(acts)
@@ -210,9 +440,9 @@ func showItem(it lr.Item) string {
 	}
 	ss := make([]string, len(p.Body))
 	for i, s := range p.Body {
-		ss[i] = s.Name()
+		ss[i] = enc(s.Name())
 	}
-	return string(p.Head) + "→" + strings.Join(ss[:dot], ".") + "•" + strings.Join(ss[dot:], ".") + la
+	return enc(string(p.Head)) + "→" + strings.Join(ss[:dot], ".") + "•" + strings.Join(ss[dot:], ".") + la
 }
 
 // stateItems returns the item sets of the states of a construction, in state order, through the public API
@@ -256,7 +486,7 @@ func showTree(n parser.Node) string {
 	case *parser.LeafNode:
 		return tname(v.Terminal)
 	case *parser.InternalNode:
-		ss := []string{string(v.NonTerminal)}
+		ss := []string{enc(string(v.NonTerminal))}
 		for _, c := range v.Children {
 			ss = append(ss, showTree(c))
 		}
@@ -291,13 +521,9 @@ func mkProd(g gx.G, w string) (*grammar.Production, bool) {
 		if s == "" {
 			continue
 		}
-		if g.IsNonTerm(s) {
-			body = append(body, grammar.NonTerminal(s))
-		} else {
-			body = append(body, grammar.Terminal(stripQ(s)))
-		}
+		body = append(body, symOf(g, s))
 	}
-	return &grammar.Production{Head: grammar.NonTerminal(hb[0]), Body: body}, true
+	return &grammar.Production{Head: grammar.NonTerminal(ntName(hb[0])), Body: body}, true
 }
 
 func mkAction(g gx.G, w string) (*lr.Action, bool) {
@@ -457,7 +683,7 @@ func (e *expr) String() string {
 	if e.l == nil {
 		return "(E id)"
 	}
-	return "(E " + e.l.String() + " " + e.op + " " + e.r.String() + ")"
+	return "(E " + e.l.String() + " " + enc(stripQ(e.op)) + " " + e.r.String() + ")"
 }
 
 // climb parses  id (op id)*  grouping by declared strength; nil = not an expression or an operator that is
@@ -507,51 +733,119 @@ func climb(ls []refLevel, toks []string) *expr {
 // ---------------------------------------------------------------- derivation replay (oracle)
 
 // replay checks that prods (in emission order), applied in reverse, each to the rightmost non-terminal, lead
-// from the start symbol to w.
+// from the start symbol to w.  Linear in the length of the derivation: the sentential form is kept as the part up to
+// and including its rightmost non-terminal (a stack) and the terminal suffix behind it (collected back to front).
 func replay(g gx.G, prods []*grammar.Production, w []string) string {
-	form := []string{g.Start}
+	isNT := map[string]bool{}
+	for _, n := range g.NonTerms {
+		isNT[n] = true
+	}
+	isProd := map[string]bool{}
+	for _, q := range g.Prods {
+		isProd[q.Head+"\x00"+strings.Join(q.Body, "\x00")] = true
+	}
+	left := []string{g.Start}
+	var suffixRev []string
+	settle := func() { // move the terminals at the end of left over to the suffix
+		for len(left) > 0 && !isNT[left[len(left)-1]] {
+			suffixRev = append(suffixRev, left[len(left)-1])
+			left = left[:len(left)-1]
+		}
+	}
+	settle()
 	for i := len(prods) - 1; i >= 0; i-- {
 		p := prods[i]
-		k := -1
-		for j := len(form) - 1; j >= 0; j-- {
-			if g.IsNonTerm(form[j]) {
-				k = j
-				break
-			}
-		}
-		if k < 0 {
+		if len(left) == 0 {
 			return "no non-terminal left for " + showProd(p)
 		}
-		if form[k] != string(p.Head) {
-			return fmt.Sprintf("rightmost non-terminal is %s, production is %s", form[k], showProd(p))
+		top := left[len(left)-1]
+		if top != enc(string(p.Head)) {
+			return fmt.Sprintf("rightmost non-terminal is %s, production is %s", top, showProd(p))
 		}
-		found := false
-		for _, q := range g.Prods {
-			if q.Head == string(p.Head) && len(q.Body) == len(p.Body) {
-				eq := true
-				for x := range q.Body {
-					if q.Body[x] != gxName(g, p.Body[x]) {
-						eq = false
+		body := make([]string, len(p.Body))
+		for x, sym := range p.Body {
+			body[x] = gxName(g, sym)
+		}
+		if !isProd[top+"\x00"+strings.Join(body, "\x00")] {
+			return "not a production of the grammar: " + showProd(p)
+		}
+		left = append(left[:len(left)-1], body...)
+		settle()
+	}
+	if len(left) > 0 {
+		return "derivation ends with the non-terminal " + left[len(left)-1] + " left"
+	}
+	if len(suffixRev) != len(w) {
+		return fmt.Sprintf("derivation ends in a string of %d tokens", len(suffixRev))
+	}
+	for i := range w {
+		if suffixRev[len(w)-1-i] != w[i] {
+			return fmt.Sprintf("derivation ends in a string that differs from the input at token %d", i)
+		}
+	}
+	return ""
+}
+
+// earley decides w ∈ L(g) for any context-free grammar (ε-productions included); independent of the library and of
+// gx.LangK; used for the inputs that are too long for the bounded-language table.
+func earley(g gx.G, w []string) bool {
+	type item struct{ p, dot, orig int }
+	isNT := map[string]bool{}
+	for _, n := range g.NonTerms {
+		isNT[n] = true
+	}
+	prods := append([]gx.P{{Head: "\x00start", Body: []string{g.Start}}}, g.Prods...)
+	nullable := g.Nullable()
+	byHead := map[string][]int{}
+	for i, p := range prods {
+		byHead[p.Head] = append(byHead[p.Head], i)
+	}
+	n := len(w)
+	sets := make([]map[item]bool, n+1)
+	lists := make([][]item, n+1)
+	add := func(k int, it item) {
+		if sets[k] == nil {
+			sets[k] = map[item]bool{}
+		}
+		if !sets[k][it] {
+			sets[k][it] = true
+			lists[k] = append(lists[k], it)
+		}
+	}
+	add(0, item{0, 0, 0})
+	for k := 0; k <= n; k++ {
+		predicted := map[string]bool{}
+		for idx := 0; idx < len(lists[k]); idx++ {
+			it := lists[k][idx]
+			body := prods[it.p].Body
+			if it.dot < len(body) {
+				x := body[it.dot]
+				if isNT[x] {
+					if !predicted[x] {
+						predicted[x] = true
+						for _, q := range byHead[x] {
+							add(k, item{q, 0, k})
+						}
 					}
+					if nullable[x] {
+						add(k, item{it.p, it.dot + 1, it.orig})
+					}
+				} else if k < n && w[k] == x {
+					add(k+1, item{it.p, it.dot + 1, it.orig})
 				}
-				if eq {
-					found = true
+			} else {
+				h := prods[it.p].Head
+				for j := 0; j < len(lists[it.orig]); j++ {
+					pt := lists[it.orig][j]
+					b := prods[pt.p].Body
+					if pt.dot < len(b) && b[pt.dot] == h {
+						add(k, item{pt.p, pt.dot + 1, pt.orig})
+					}
 				}
 			}
 		}
-		if !found {
-			return "not a production of the grammar: " + showProd(p)
-		}
-		nf := append([]string{}, form[:k]...)
-		for _, s := range p.Body {
-			nf = append(nf, gxName(g, s))
-		}
-		form = append(nf, form[k+1:]...)
 	}
-	if strings.Join(form, " ") != strings.Join(w, " ") {
-		return "derivation ends in [" + strings.Join(form, " ") + "]"
-	}
-	return ""
+	return sets[n][item{0, 1, 0}]
 }
 
 // ---------------------------------------------------------------- executing one case
@@ -562,6 +856,46 @@ type built struct {
 	verdict string           // table | conflict
 	usable  bool
 	plain   bool // built without precedence levels
+	// the grammar the table was built for (the caller may edit its grammar afterwards: the table stays what it was)
+	g    gx.G
+	gen  int
+	lang map[int]map[string]bool
+	cg   *gx.G
+}
+
+func (b *built) canon() gx.G {
+	if b.cg == nil {
+		g := canonG(b.g)
+		b.cg = &g
+	}
+	return *b.cg
+}
+
+func cloneGX(g gx.G) gx.G {
+	h := gx.G{Start: g.Start, Terms: append([]string{}, g.Terms...), NonTerms: append([]string{}, g.NonTerms...)}
+	for _, p := range g.Prods {
+		h.Prods = append(h.Prods, gx.P{Head: p.Head, Body: append([]string{}, p.Body...)})
+	}
+	return h
+}
+
+// member: w ∈ L(G) for the grammar the table was built for.
+func (b *built) member(w []string) bool {
+	n := len(w)
+	if n > maxLangK || len(b.g.Prods) > 40 {
+		// (the table of all short sentences explodes for the large grammars of the size sweep)
+		return earley(b.g, w)
+	}
+	if n < 5 {
+		n = 5
+	}
+	if b.lang == nil {
+		b.lang = map[int]map[string]bool{}
+	}
+	if b.lang[n] == nil {
+		b.lang[n] = b.g.LangK(n)
+	}
+	return b.lang[n][strings.Join(w, " ")]
 }
 
 type state struct {
@@ -569,20 +903,70 @@ type state struct {
 	levels lr.PrecedenceLevels
 	ref    []refLevel
 	tabs   map[string]*built
-	lang   map[int]map[string]bool
+	gen    int // counts the edits of the grammar
 	// accepted[kind][word] for the agreement oracle
 	accepted map[string]map[string]bool
+
+	// how the API is used (header keys; the Model is a pure function of the op lines and does not see them)
+	keep    bool                  // cfg=keep: ONE *grammar.CFG for the whole case, edited in place by later grammar lines
+	layout  string                // layout=: how the production bodies share backing arrays
+	reuse   bool                  // parser=reuse: one lr.Parser per table, its lexer replaced for every parse
+	lexMode string                // lex=: how the lexer signals the end of input
+	cfg     *grammar.CFG          // the kept object (cfg=keep)
+	parsers map[string]*lr.Parser // parser=reuse
+	edited  bool                  // a grammar line arrived after a build
+	cg      *gx.G                 // st.g in canonical words (cache)
+	// expect=table: the generator states that the grammar is SLR(1) by construction (a structured family)
+	expectTable bool
 }
 
-func (st *state) member(w []string) bool {
-	n := len(w)
-	if n < 5 {
-		n = 5
+func (st *state) canon() gx.G {
+	if st.cg == nil {
+		g := canonG(st.g)
+		st.cg = &g
 	}
-	if st.lang[n] == nil {
-		st.lang[n] = st.g.LangK(n)
+	return *st.cg
+}
+
+// maxLangK: sentences up to this length are decided by the bounded-language table (for grammars of up to 40
+// productions), longer ones by earley.
+const maxLangK = 6
+
+// theCFG is the grammar object handed to the library: the kept one, or a fresh one.
+func (st *state) theCFG() *grammar.CFG {
+	if !st.keep {
+		return toCFGLayout(st.g, st.layout)
 	}
-	return st.lang[n][strings.Join(w, " ")]
+	if st.cfg == nil {
+		st.cfg = toCFGLayout(st.g, st.layout)
+	}
+	return st.cfg
+}
+
+// cfgOf is a library grammar for the grammar a table was built for: the caller's object while it still is that grammar.
+func (st *state) cfgOf(b *built) *grammar.CFG {
+	if b.gen == st.gen {
+		return st.theCFG()
+	}
+	return toCFG(b.g)
+}
+
+// grammarChanged invalidates what was computed for the grammar as it was.
+func (st *state) grammarChanged() {
+	st.gen++
+	st.cg = nil
+	if len(st.tabs) > 0 {
+		st.edited = true
+	}
+}
+
+// opTimeout: the watchdog of one build / parse (a hang of the code under test).  The constructions are cubic and worse in
+// the size of the largest item set: the sweep over size thresholds gets more time.
+func (st *state) opTimeout() time.Duration {
+	if len(st.g.Prods) > 48 || len(st.g.Terms) > 48 {
+		return 150 * time.Second
+	}
+	return 10 * time.Second
 }
 
 func isOperatorGrammar(g gx.G) bool {
@@ -608,11 +992,11 @@ func validGrammar(g gx.G) bool {
 	isT := map[string]bool{}
 	for _, t := range g.Terms {
 		isT[t] = true
-		if g.IsNonTerm(t) || t == string(grammar.Endmarker) {
+		if g.IsNonTerm(t) || stripQ(t) == string(grammar.Endmarker) {
 			return false
 		}
 	}
-	if !g.IsNonTerm(g.Start) || g.IsNonTerm(g.Start+"′") {
+	if !g.IsNonTerm(g.Start) {
 		return false
 	}
 	has := map[string]bool{}
@@ -635,15 +1019,13 @@ func validGrammar(g gx.G) bool {
 	return true
 }
 
-const opTimeout = 10 * time.Second
-
 // Exec runs one case on the real parser/lr packages.
 func Exec(c hx.Case) hx.Result {
 	res := hx.Result{BadOp: -1}
 	bad := func(i int, sig string, format string, a ...any) {
 		if res.BadOp < 0 {
 			res.BadOp = i
-			res.What = fmt.Sprintf(format, a...)
+			res.What = strings.NewReplacer("\n", " ", "\r", " ").Replace(fmt.Sprintf(format, a...)) // one line in the replay file
 			res.Sig = sig
 		}
 	}
@@ -655,7 +1037,23 @@ func Exec(c hx.Case) hx.Result {
 		}
 	}
 	seedShuffles(seed)
-	st := &state{tabs: map[string]*built{}, lang: map[int]map[string]bool{}, accepted: map[string]map[string]bool{}}
+	st := &state{tabs: map[string]*built{}, accepted: map[string]map[string]bool{},
+		parsers: map[string]*lr.Parser{}}
+	st.keep = hx.HeaderGet(c.Header, "cfg") == "keep"
+	st.layout = hx.HeaderGet(c.Header, "layout")
+	if st.layout == "" {
+		st.layout = "fresh"
+	}
+	st.reuse = hx.HeaderGet(c.Header, "parser") == "reuse"
+	st.lexMode = hx.HeaderGet(c.Header, "lex")
+	st.expectTable = hx.HeaderGet(c.Header, "expect") == "table"
+	if v := hx.HeaderGet(c.Header, "names"); v != "" && v != "plain" {
+		tags["names:"+v] = true
+	}
+	if v := hx.HeaderGet(c.Header, "size"); v != "" {
+		tags["size:"+v] = true
+	}
+	lexFailed := false
 	sawAccept, sawReject, boundary, resolvedCmp, decided := false, false, false, false, false
 
 	for i, op := range c.Ops {
@@ -669,19 +1067,74 @@ func Exec(c hx.Case) hx.Result {
 		switch f[0] {
 		case "terms":
 			st.g.Terms = append(st.g.Terms, f[1:]...)
+			st.grammarChanged()
+			if st.cfg != nil { // the caller edits the grammar it has already handed to a construction
+				for _, t := range f[1:] {
+					st.cfg.Terminals.Add(grammar.Terminal(stripQ(t)))
+				}
+			}
 			out = "ok"
 		case "nonterms":
 			st.g.NonTerms = append(st.g.NonTerms, f[1:]...)
+			st.grammarChanged()
+			if st.cfg != nil {
+				for _, n := range f[1:] {
+					st.cfg.NonTerminals.Add(grammar.NonTerminal(ntName(n)))
+				}
+			}
 			out = "ok"
 		case "start":
 			if len(f) == 2 {
 				st.g.Start = f[1]
+				st.grammarChanged()
+				if st.cfg != nil {
+					st.cfg.Start = grammar.NonTerminal(ntName(f[1]))
+				}
 				out = "ok"
 			}
-		case "prod":
+		case "prod", "unprod":
 			if len(f) >= 3 && f[2] == ":" {
-				st.g.Prods = append(st.g.Prods, gx.P{Head: f[1], Body: append([]string{}, f[3:]...)})
+				p := gx.P{Head: f[1], Body: append([]string{}, f[3:]...)}
+				body := make(grammar.String[grammar.Symbol], len(p.Body))
+				for k, x := range p.Body {
+					body[k] = symOf(st.g, x)
+				}
+				lp := &grammar.Production{Head: grammar.NonTerminal(ntName(p.Head)), Body: body}
+				if f[0] == "prod" {
+					st.g.Prods = append(st.g.Prods, p)
+					if st.cfg != nil {
+						st.cfg.Productions.Add(lp)
+					}
+				} else {
+					var rest []gx.P
+					for _, q := range st.g.Prods {
+						if q.Head != p.Head || strings.Join(q.Body, "\x00") != strings.Join(p.Body, "\x00") || len(q.Body) != len(p.Body) {
+							rest = append(rest, q)
+						}
+					}
+					st.g.Prods = rest
+					if st.cfg != nil {
+						st.cfg.Productions.Remove(lp)
+					}
+				}
+				st.grammarChanged()
 				out = "ok"
+			}
+		case "grammar":
+			// the grammar as the library object holds it (the kept object if there is one): a construction must not have
+			// written to the grammar it was given
+			if len(f) == 1 {
+				var shown string
+				kind := hx.Try(func() { shown = showLive(st.theCFG()) })
+				if kind != "" {
+					out, stop = "panic", true
+					bad(i, "", "rendering the grammar panicked (%s)", kind)
+				} else {
+					out = "ok " + shown
+					if want := st.canon().Show(); shown != want {
+						bad(i, "", "the grammar object handed to the constructions now reads %s, the caller built it as %s", shown, want)
+					}
+				}
 			}
 		case "prec":
 			if len(f) >= 2 {
@@ -728,7 +1181,7 @@ func Exec(c hx.Case) hx.Result {
 					out = "ok no-table"
 				} else {
 					var s string
-					kind := hx.Try(func() { s = showStates(stateItems(f[1], toCFG(st.g))) })
+					kind := hx.Try(func() { s = showStates(stateItems(f[1], st.cfgOf(st.tabs[f[1]]))) })
 					if kind != "" {
 						out, stop = "panic", true
 						bad(i, "", "dump %s panicked (%s)", f[1], kind)
@@ -756,9 +1209,20 @@ func Exec(c hx.Case) hx.Result {
 					}
 				}
 			}
-		case "parse", "ast":
+		case "parse", "ast", "parsefail":
 			if len(f) >= 2 && builders[f[1]] != nil {
 				k, w := f[1], f[2:]
+				failAt := -1
+				if f[0] == "parsefail" {
+					if len(f) < 3 {
+						break
+					}
+					n, err := strconv.Atoi(f[2])
+					if err != nil || n < 0 || n > len(f[3:]) {
+						break
+					}
+					failAt, w = n, f[3:]
+				}
 				b := st.tabs[k]
 				if b == nil || !b.usable {
 					out = "ok no-table"
@@ -768,23 +1232,60 @@ func Exec(c hx.Case) hx.Result {
 				var perr error
 				var root parser.Node
 				var pk string
-				done := hx.WithTimeout(opTimeout, func() {
+				done := hx.WithTimeout(st.opTimeout(), func() {
 					pk = hx.Try(func() {
-						p := &lr.Parser{L: &sliceLexer{toks: w}, T: b.T}
-						if f[0] == "parse" {
-							perr = p.Parse(nil, func(pr *grammar.Production) error { prods = append(prods, pr); return nil })
+						lx := &sliceLexer{toks: w, mode: st.lexMode, failAt: failAt}
+						var p *lr.Parser
+						if st.reuse {
+							// one parser object per table, used for one parse after the other
+							if p = st.parsers[k]; p == nil || p.T != b.T {
+								p = &lr.Parser{T: b.T}
+								st.parsers[k] = p
+							} else {
+								tags["parser-reused"] = true
+							}
+							p.L = lx
 						} else {
+							p = &lr.Parser{L: lx, T: b.T}
+						}
+						if f[0] == "ast" {
 							root, perr = p.ParseAndBuildAST()
+						} else {
+							perr = p.Parse(nil, func(pr *grammar.Production) error { prods = append(prods, pr); return nil })
 						}
 					})
 				})
+				if f[0] == "parsefail" {
+					switch {
+					case !done:
+						out, stop = "hang", true
+						bad(i, "", "parse %s did not return (lexer failing at token %d of [%s])", k, failAt, shortW(w))
+					case pk != "":
+						out, stop = "panic", true
+						bad(i, "", "parse %s panicked (%s) when the lexer failed at token %d of [%s]", k, pk, failAt, shortW(w))
+					case perr == nil:
+						out = "ok accept-after-lexer-error"
+						bad(i, "", "parse %s accepted although the lexer reported a failure at token %d of [%s]", k, failAt, shortW(w))
+					default:
+						pos := -1
+						var pe *parser.ParseError
+						if errors.As(perr, &pe) {
+							pos = pe.Pos.Offset - 1
+						}
+						out = "ok reject " + strconv.Itoa(pos)
+						if errors.Is(perr, errLexer) {
+							lexFailed = true
+						}
+					}
+					break
+				}
 				switch {
 				case !done:
 					out, stop = "hang", true
-					bad(i, "", "%s %s did not return on %v", f[0], k, w)
+					bad(i, "", "%s %s did not return on [%s]", f[0], k, shortW(w))
 				case pk != "":
 					out, stop = "panic", true
-					bad(i, "", "%s %s panicked (%s) on %v", f[0], k, pk, w)
+					bad(i, "", "%s %s panicked (%s) on [%s]", f[0], k, pk, shortW(w))
 				case perr != nil:
 					pos := -1
 					var pe *parser.ParseError
@@ -811,17 +1312,17 @@ func Exec(c hx.Case) hx.Result {
 				st.accepted[k][strings.Join(w, " ")] = accepted
 				if b.plain && b.verdict == "table" {
 					// a conflict-free table accepts exactly L(G)
-					want := st.member(w)
+					want := b.member(w)
 					if accepted {
 						sawAccept = true
 					} else {
 						sawReject = true
 					}
 					if accepted != want {
-						bad(i, "", "%s table: accept=%v for [%s] but membership in L(G) is %v", k, accepted, strings.Join(w, " "), want)
+						bad(i, "", "%s table: accept=%v for [%s] but membership in L(G) is %v", k, accepted, shortW(w), want)
 					} else if accepted && f[0] == "parse" {
-						if msg := replay(st.g, prods, w); msg != "" {
-							bad(i, "", "%s: emitted productions reversed are not a rightmost derivation of [%s]: %s", k, strings.Join(w, " "), msg)
+						if msg := replay(b.canon(), prods, canonTokens(b.canon(), w)); msg != "" {
+							bad(i, "", "%s: emitted productions reversed are not a rightmost derivation of [%s]: %s", k, shortW(w), msg)
 						}
 					} else if accepted {
 						var y []string
@@ -831,19 +1332,19 @@ func Exec(c hx.Case) hx.Result {
 							ws[j] = stripQ(t)
 						}
 						if strings.Join(y, " ") != strings.Join(ws, " ") {
-							bad(i, "", "%s: AST yield [%s] differs from the input [%s]", k, strings.Join(y, " "), strings.Join(w, " "))
+							bad(i, "", "%s: AST yield [%s] differs from the input [%s]", k, shortW(y), shortW(w))
 						}
 					}
 					// all successful constructions accept the same strings
 					for _, k2 := range kinds {
-						if b2 := st.tabs[k2]; k2 != k && b2 != nil && b2.plain && b2.verdict == "table" {
+						if b2 := st.tabs[k2]; k2 != k && b2 != nil && b2.plain && b2.verdict == "table" && b2.gen == b.gen {
 							if a2, seen := st.accepted[k2][strings.Join(w, " ")]; seen && a2 != accepted {
-								bad(i, "", "%s and %s disagree on [%s]", k, k2, strings.Join(w, " "))
+								bad(i, "", "%s and %s disagree on [%s]", k, k2, shortW(w))
 							}
 						}
 					}
 				}
-				if !b.plain && b.verdict == "table" && isOperatorGrammar(st.g) {
+				if !b.plain && b.verdict == "table" && isOperatorGrammar(b.g) {
 					// the resolved parser groups operators as declared
 					ref := climb(st.ref, w)
 					listed := true
@@ -999,7 +1500,7 @@ func Exec(c hx.Case) hx.Result {
 
 	// inclusion chain over the constructions built without precedence levels
 	verdictOf := func(k string) string {
-		if b := st.tabs[k]; b != nil && b.plain {
+		if b := st.tabs[k]; b != nil && b.plain && b.gen == st.gen {
 			return b.verdict
 		}
 		return ""
@@ -1045,6 +1546,12 @@ func Exec(c hx.Case) hx.Result {
 	if decided {
 		tags["precedence-decision"] = true
 	}
+	if lexFailed {
+		tags["lexer-failure-reported"] = true
+	}
+	if st.lexMode != "" && st.lexMode != "plain" {
+		tags["lex="+st.lexMode] = true
+	}
 	res.Nontrivial = (sawAccept && sawReject) || boundary || (resolvedCmp && tags["resolved-cells"]) || decided
 	for t := range tags {
 		res.Tags = append(res.Tags, t)
@@ -1057,10 +1564,30 @@ func Exec(c hx.Case) hx.Result {
 func (st *state) build(i int, k string, bad func(int, string, string, ...any), tags map[string]bool) (string, bool) {
 	delete(st.tabs, k)
 	delete(st.accepted, k)
-	G := toCFG(st.g)
+	delete(st.parsers, k)
+	G := st.theCFG()
+	if st.keep {
+		tags["cfg=keep"] = true
+		if st.edited {
+			tags["grammar-edited-between-builds"] = true
+		}
+	}
+	if st.layout != "fresh" {
+		tags["layout="+st.layout] = true
+	}
+	defer func() {
+		// whatever the construction answered: it must not have written to the grammar it was given
+		if kind := hx.Try(func() {
+			if shown, want := showLive(G), st.canon().Show(); shown != want {
+				bad(i, "", "build %s changed the grammar it was given (bodies allocated as layout=%s): it now reads %s, the caller built %s", k, st.layout, shown, want)
+			}
+		}); kind != "" {
+			bad(i, "", "the grammar handed to build %s cannot be read any more (%s)", k, kind)
+		}
+	}()
 	run := func(levels lr.PrecedenceLevels) (T *lr.ParsingTable, err error, fail string) {
 		var pk string
-		done := hx.WithTimeout(opTimeout, func() {
+		done := hx.WithTimeout(st.opTimeout(), func() {
 			pk = hx.Try(func() { T, err = builders[k](G, levels) })
 		})
 		if !done {
@@ -1086,7 +1613,14 @@ func (st *state) build(i int, k string, bad func(int, string, string, ...any), t
 		verdict = "conflict"
 	}
 	if len(st.levels) == 0 {
-		st.tabs[k] = &built{T: T, raw: T, verdict: verdict, usable: true, plain: true}
+		if st.expectTable && verdict != "table" {
+			msg := strings.Join(strings.Fields(err.Error()), " ")
+			if len(msg) > 300 {
+				msg = msg[:300] + "…"
+			}
+			bad(i, "", "build %s reports a conflict on a grammar that is SLR(1) by construction (%s)", k, msg)
+		}
+		st.tabs[k] = &built{T: T, raw: T, verdict: verdict, usable: true, plain: true, g: cloneGX(st.g), gen: st.gen}
 		return "ok " + verdict + " " + showTable(T), false
 	}
 	// with precedence levels: compare every resolved cell with the reference rule; cells whose outcome depends on
@@ -1112,7 +1646,7 @@ func (st *state) build(i int, k string, bad func(int, string, string, ...any), t
 				orderDependent = true
 				continue
 			}
-			outs := refOutcomes(st.ref, tname(a), acts)
+			outs := refOutcomes(st.ref, string(a), acts)
 			if len(outs) > 1 {
 				orderDependent = true
 				tags["order-dependent-cell"] = true
@@ -1126,11 +1660,19 @@ func (st *state) build(i int, k string, bad func(int, string, string, ...any), t
 		}
 	}
 	if orderDependent {
-		st.tabs[k] = &built{T: T, raw: raw, verdict: "order-dependent", usable: false}
+		st.tabs[k] = &built{T: T, raw: raw, verdict: "order-dependent", usable: false, g: cloneGX(st.g), gen: st.gen}
 		return "ok order-dependent", false
 	}
-	st.tabs[k] = &built{T: T, raw: raw, verdict: verdict, usable: true}
+	st.tabs[k] = &built{T: T, raw: raw, verdict: verdict, usable: true, g: cloneGX(st.g), gen: st.gen}
 	return "ok " + verdict + " " + showTable(T), false
+}
+
+// shortW renders a token string for a message, abbreviating long ones.
+func shortW(w []string) string {
+	if len(w) <= 24 {
+		return strings.Join(w, " ")
+	}
+	return strings.Join(w[:10], " ") + fmt.Sprintf(" … (%d tokens) … ", len(w)) + strings.Join(w[len(w)-6:], " ")
 }
 
 func keys(m map[string]bool) []string {
